@@ -128,7 +128,7 @@ func BuildRespWrite(p *Program, T *types.Named, fd *ast.FuncDecl) *RespWrite {
 		}
 		return call, true
 	}
-	list := fd.Body.List
+	list := mergeCommaOk(info, fd.Body.List)
 	i := 0
 	// header blocks
 	for ; i < len(list); i++ {
